@@ -13,3 +13,24 @@ pub fn ngram_list(words: Vec<&str>, range: (usize, usize)) -> Vec<Vec<String>> {
 pub fn transformed(params: &CountVectorizerValidParams, doc: &str) -> String {
     transform_string(doc.to_string(), params)
 }
+
+/// `encoding::all::UTF_16LE` — a second encoding for `fit_files` / `transform_files` (the harness
+/// does not depend on the `encoding` crate).
+pub fn utf16le() -> encoding::types::EncodingRef {
+    encoding::all::UTF_16LE
+}
+
+/// `encoding::all::ISO_8859_1`
+pub fn latin1() -> encoding::types::EncodingRef {
+    encoding::all::ISO_8859_1
+}
+
+/// `encoding::DecoderTrap::Replace` (an unrecognised sequence becomes U+FFFD)
+pub fn replace() -> encoding::DecoderTrap {
+    encoding::DecoderTrap::Replace
+}
+
+/// `encoding::DecoderTrap::Ignore` (an unrecognised sequence is dropped)
+pub fn ignore() -> encoding::DecoderTrap {
+    encoding::DecoderTrap::Ignore
+}
